@@ -218,18 +218,18 @@ def _mut_fm(rng, a, op, field, opts):
             if fm.quantization is not None and not (flip[fm.data_type].min_value() <= fm.quantization.zero_point <= flip[fm.data_type].max_value()):
                 continue
             if nm != "ofm":
-                # IFM and IFM2 share the precision register's signedness only loosely; keep both operands alike
-                for n2, f2 in fms:
-                    if n2 != "ofm" and f2.data_type != fm.data_type:
-                        break
-                else:
-                    for n2, f2 in fms:
-                        if n2 != "ofm":
-                            f2.data_type = flip[f2.data_type]
-                    if op.ifm2 is not None and op.ifm2.shape is None:
-                        continue
-                    return "ifm.data_type"
-                continue
+                # both operands of an operation have one signedness: IFM and IFM2 change together (label says ifm)
+                if op.ifm2 is not None and op.ifm2.shape is None:
+                    continue                    # scalar IFM2: its value would have to be re-quantised
+                ins = [f2 for n2, f2 in fms if n2 != "ofm"]
+                if any(f2.data_type != fm.data_type for f2 in ins):
+                    continue
+                if any(f2.quantization is not None and not (flip[f2.data_type].min_value() <= f2.quantization.zero_point
+                                                            <= flip[f2.data_type].max_value()) for f2 in ins):
+                    continue
+                for f2 in ins:
+                    f2.data_type = flip[f2.data_type]
+                return "ifm.data_type"
             fm.data_type = flip[fm.data_type]
             return nm + ".data_type"
         if field == "region":
